@@ -235,6 +235,55 @@ func c08Generate(tier string, rng *core.Rand) []c08Case {
 		}
 	}
 	recP(nil)
+	// 5. white space around operators: every chain of <= 2 operators in five spacings (none, only
+	// before, only after, several blanks, tabs) over four operand sets (names, integer literals,
+	// an application followed by literals, parenthesised names); blanks never change the grouping
+	spacings := []struct{ name, pre, post string }{{"tight", "", ""}, {"before-only", " ", ""}, {"after-only", "", " "}, {"wide", "  ", "   "}, {"tabs", "\t", "\t"}}
+	opSets := []func(i int) c08Operand{
+		func(i int) c08Operand { return c08Operand{src: c08Atoms[i], ren: c08Atoms[i]} },
+		func(i int) c08Operand { v := fmt.Sprint(i + 1); return c08Operand{src: v, ren: v, ty: "int"} },
+		func(i int) c08Operand {
+			if i == 0 {
+				return c08Operand{src: "g a", ren: "g(a)", ty: "int"}
+			}
+			v := fmt.Sprint(i)
+			return c08Operand{src: v, ren: v, ty: "int"}
+		},
+		func(i int) c08Operand { return c08Operand{src: "(" + c08Atoms[i] + ")", ren: c08Atoms[i]} },
+	}
+	var recS func(ops []string)
+	recS = func(ops []string) {
+		if len(ops) > 0 {
+			for _, sp := range spacings {
+				for si, mk := range opSets {
+					o := make([]c08Operand, len(ops)+1)
+					for i := range o {
+						o[i] = mk(i)
+					}
+					var b strings.Builder
+					b.WriteString(o[0].src)
+					for i, op := range ops {
+						b.WriteString(sp.pre + op + sp.post + o[i+1].src)
+					}
+					src := b.String()
+					// spellings that are other tokens of the language, not this chain: `name<` opens a
+					// type-argument list, `//` and `/*` open comments, `*)`-free here
+					if (sp.pre == "" && si != 1 && strings.Contains(src, "<")) || strings.Contains(src, "//") || strings.Contains(src, "/*") {
+						continue
+					}
+					cases = append(cases, c08Case{name: fmt.Sprintf("c%d", len(cases)), body: "  " + src, want: c08Render(o, ops), wellTy: c08Type(o, ops, "") != "", kind: "spacing-" + sp.name,
+						nontriv: true, desc: strings.ReplaceAll(src, "\t", "⇥")})
+				}
+			}
+		}
+		if len(ops) == 2 {
+			return
+		}
+		for _, o := range c08Ops {
+			recS(append(ops[:len(ops):len(ops)], o))
+		}
+	}
+	recS(nil)
 	// 4. seeded sample of longer chains (5..7 operators) with mixed operand forms
 	nLong := 600
 	if tier == "thorough" {
@@ -316,7 +365,7 @@ func runC08(r *core.Run, tier string) {
 		r.Inconclusive("fc does not build: " + err.Error())
 		return
 	}
-	r.Rule("a case is one function whose body is a chain of binary operators; the emitted return expression (white space removed) is compared with the parenthesisation computed from the published table by a split-at-last-loosest-operator reference; all 22 620 sequences of 1..4 of the 12 non-pipe operators over atomic operands are enumerated, plus every operand form (literal, application, 2-argument application, `not f x`, parenthesised sub-chains, `not (..)`) at every position of all chains of <= 2 (thorough: 3) operators, pipe tails, a line break before every operator, and a seeded sample of 5..7-operator chains; non-trivial = at least 2 operators; distinct by source text")
+	r.Rule("a case is one function whose body is a chain of binary operators; the emitted return expression (white space removed) is compared with the parenthesisation computed from the published table by a split-at-last-loosest-operator reference; all 22 620 sequences of 1..4 of the 12 non-pipe operators over atomic operands are enumerated, plus every operand form (literal, application, 2-argument application, `not f x`, parenthesised sub-chains, `not (..)`) at every position of all chains of <= 2 (thorough: 3) operators, pipe tails, a line break before every operator, every chain of <= 2 operators in five spacings (no blank, a blank only before / only after the operator, several blanks, tabs) over names, integer literals, an application followed by literals and parenthesised names, and a seeded sample of 5..7-operator chains; non-trivial = at least 2 operators; distinct by source text")
 	r.Assume("fc does not type-check operator chains, so ill-typed chains are compared too when fc accepts them; a rejected ill-typed chain is counted, not judged; a rejected well-typed chain is a violation")
 	cases := c08Generate(tier, core.NewRand(r.SeedV, "c08"))
 	const per = 200
